@@ -97,6 +97,86 @@ def binary32 (d : Nat) : Option (Bool × Nat × Nat) :=
   else if 150 ≤ e then some (s, (2 ^ 23 + f) * 2 ^ (e - 150), 1)
   else some (s, 2 ^ 23 + f, 2 ^ (150 - e))
 
+/-! ### the whole of `coerceToString`, per type, as one independent definition
+
+`Coerced` is the *meaning* Android gives to (type, data); `coerceText` prints it in the conventions the
+property fixes for androguard (decimals with six places rounded half-even, eight zero-padded uppercase
+hexadecimal digits, `android:` for the framework package).  Android itself prints floats with
+`Float.toString` and hex without padding; the property is about the value, so the text conventions are
+part of the statement, not of Android.  Nothing here refers to the model. -/
+
+inductive Coerced
+  | pooled (index : Nat)                               -- TYPE_STRING: the pool string with this index
+  | resource (attr framework : Bool) (id : Nat)        -- `?`/`@`, optional `android:`, the id
+  | micro (neg : Bool) (m : Nat) (unit : String)       -- ±m·10⁻⁶ followed by a unit ("" for TYPE_FLOAT)
+  | nonFinite (neg nan : Bool)                         -- TYPE_FLOAT infinities and NaNs
+  | hex (v : Nat)
+  | color (v : Nat)
+  | boolean (b : Bool)
+  | decimal (v : Int)
+  | undefinedUnit                                      -- a unit nibble Android has no string for
+  | untyped                                            -- coerceToString returns null
+  deriving DecidableEq, Repr
+
+/-- nearest multiple of 10⁻⁶ to n/d, ties to even — written as "round half up, then step back from an odd
+    result on an exact tie" (the model uses quotient/remainder comparisons) -/
+def roundMicro (n d : Nat) : Nat :=
+  let m := (2 * (n * 1000000) + d) / (2 * d)
+  if (2 * (n * 1000000) + d) % (2 * d) = 0 ∧ m % 2 = 1 then m - 1 else m
+
+def complexMicro (d : Nat) (scale : Nat) (units : List String) : Coerced :=
+  match units[unit d]? with
+  | some u => .micro (decide (complexNum d < 0)) (roundMicro ((complexNum d).natAbs * scale) (complexDen d)) u
+  | none => .undefinedUnit
+
+/-- what Android means by (type, data) -/
+def coerce (t d : Nat) : Coerced :=
+  match kind t with
+  | .string => .pooled d
+  | .attribute => .resource true (decide (d / 2 ^ 24 = 1)) d
+  | .reference => .resource false (decide (d / 2 ^ 24 = 1)) d
+  | .float =>
+    match binary32 d with
+    | some (s, n, k) => .micro s (roundMicro n k) ""
+    | none => .nonFinite (decide (d / 2 ^ 31 % 2 = 1)) (decide (d % 2 ^ 23 ≠ 0))
+  | .intHex => .hex d
+  | .intBoolean => .boolean (decide (d ≠ 0))
+  | .dimension => complexMicro d 1 dimensionUnits
+  | .fraction => complexMicro d 100 fractionUnits
+  | .color => .color d
+  | .intDec => .decimal (int32 d)
+  | .none => .untyped
+
+def hexDigitChar (k : Nat) : Char :=
+  match k with
+  | 0 => '0' | 1 => '1' | 2 => '2' | 3 => '3' | 4 => '4' | 5 => '5' | 6 => '6' | 7 => '7'
+  | 8 => '8' | 9 => '9' | 10 => 'A' | 11 => 'B' | 12 => 'C' | 13 => 'D' | 14 => 'E' | _ => 'F'
+
+/-- the eight base-16 digits of a 32-bit word, most significant first -/
+def hex8Text (v : Nat) : String :=
+  String.ofList ([v / 16 ^ 7 % 16, v / 16 ^ 6 % 16, v / 16 ^ 5 % 16, v / 16 ^ 4 % 16,
+                  v / 16 ^ 3 % 16, v / 16 ^ 2 % 16, v / 16 % 16, v % 16].map hexDigitChar)
+
+/-- ±m·10⁻⁶ with six places; the sign is printed also when m = 0 (C `printf`) -/
+def microText (neg : Bool) (m : Nat) : String :=
+  let frac := toString (m % 1000000)
+  (if neg then "-" else "") ++ toString (m / 1000000) ++ "."
+    ++ (String.ofList (List.replicate (6 - frac.length) '0') ++ frac)
+
+/-- the text of a meaning; `none` where the property demands nothing (undefined unit, null, and the
+    spelling of non-finite floats: Android prints `Infinity`/`NaN`) -/
+def coerceText (lookup : Nat → String) : Coerced → Option String
+  | .pooled i => some (lookup i)
+  | .resource attr fw id => some ((if attr then "?" else "@") ++ (if fw then "android:" else "") ++ hex8Text id)
+  | .micro neg m u => some (microText neg m ++ u)
+  | .nonFinite _ _ => none
+  | .hex v => some ("0x" ++ hex8Text v)
+  | .color v => some ("#" ++ hex8Text v)
+  | .boolean b => some (if b then "true" else "false")
+  | .decimal v => some (toString v)
+  | .undefinedUnit => none
+  | .untyped => none
+
 /-- a dyadic rational `n / 2^k` that binary64 holds exactly (53-bit significand, normal range) -/
 def Binary64Exact (n k : Nat) : Prop := n < 2 ^ 53 ∧ k ≤ 1022
 
